@@ -639,8 +639,13 @@ class Check:
         if r.ok and self.tier == "thorough":
             # independent re-check of the compiled closure (coqchk) + its own axiom listing
             mod = "PTK." + props_v[:-2].replace("/", ".")
-            with BuildLock():
-                rc, out = run(["coqchk", "-silent", "-o", "-Q", ".", "PTK", mod], cwd=COQ, timeout=1800)
+            # not under the build lock (it can take minutes); a concurrent rebuild of a shared .vo
+            # can make it fail spuriously, so a failure is retried once under the lock
+            rc, out = run(["coqchk", "-silent", "-o", "-Q", ".", "PTK", mod], cwd=COQ, timeout=1800)
+            if rc != 0:
+                with BuildLock():
+                    run(["make", "-j4", props_v[:-2] + ".vo"], cwd=COQ, timeout=COQ_TIMEOUT)
+                    rc, out = run(["coqchk", "-silent", "-o", "-Q", ".", "PTK", mod], cwd=COQ, timeout=1800)
             m = re.search(r"\* Axioms:(.*?)\n\s*\n\* Constants", out, re.S)
             axioms = " ".join(m.group(1).split()) if m else "(not parsed)"
             self.coverage["coqchk"] = {"cmd": "coqchk -silent -o -Q . PTK " + mod, "rc": rc, "axioms": axioms,
